@@ -2,4 +2,5 @@ SPECIFICATION Spec
 CONSTANTS MaxN = 8 MaxK = 5
 INVARIANT EqRef
 INVARIANT ChunkLazy
+INVARIANT CountDefaults
 CHECK_DEADLOCK FALSE
